@@ -21,6 +21,12 @@ static BUSY: AtomicBool = AtomicBool::new(false);
 static KILL_AT: AtomicI64 = AtomicI64::new(-1);
 static KILL_EXTRA: AtomicUsize = AtomicUsize::new(0);
 static OPCOUNT: AtomicUsize = AtomicUsize::new(0);
+/// injected I/O faults on tracked files (legal behaviour of write(2) that reports no failure to a
+/// correct caller): a short write (only a prefix is taken) or EINTR. Rate in 1/1000 per call, 0 = off.
+static FAULT_RATE: AtomicUsize = AtomicUsize::new(0);
+static FAULT_STATE: std::sync::atomic::AtomicU64 = std::sync::atomic::AtomicU64::new(0);
+static SHORT_WRITES: AtomicUsize = AtomicUsize::new(0);
+static EINTRS: AtomicUsize = AtomicUsize::new(0);
 static mut PREFIX: Option<String> = None;
 static mut LOG: Option<Vec<FsOp>> = None;
 
@@ -30,7 +36,31 @@ pub fn start(prefix: &str) {
         LOG = Some(Vec::new());
     }
     OPCOUNT.store(0, Ordering::SeqCst);
+    FAULT_RATE.store(0, Ordering::SeqCst);
+    SHORT_WRITES.store(0, Ordering::SeqCst);
+    EINTRS.store(0, Ordering::SeqCst);
     RECORDING.store(true, Ordering::SeqCst);
+}
+
+/// switches fault injection on for the current recording (own PRNG stream: one seed, one fault sequence)
+pub fn set_faults(seed: u64, rate_per_1000: usize) {
+    FAULT_STATE.store(seed | 1, Ordering::SeqCst);
+    FAULT_RATE.store(rate_per_1000, Ordering::SeqCst);
+}
+
+/// (short writes, EINTR results) injected since `start`
+pub fn fault_counts() -> (usize, usize) {
+    (SHORT_WRITES.load(Ordering::SeqCst), EINTRS.load(Ordering::SeqCst))
+}
+
+fn fault_draw() -> u64 {
+    // xorshift64*: only ever called from the single simulated caller
+    let mut x = FAULT_STATE.load(Ordering::SeqCst);
+    x ^= x >> 12;
+    x ^= x << 25;
+    x ^= x >> 27;
+    FAULT_STATE.store(x, Ordering::SeqCst);
+    x.wrapping_mul(0x2545_F491_4F6C_DD1D)
 }
 
 /// the process will `_exit` at tracked operation `nops` (before it; for a write: after `extra` bytes of it)
@@ -86,8 +116,27 @@ fn fd_path(fd: libc::c_int) -> Option<String> {
 
 #[no_mangle]
 pub unsafe extern "C" fn write(fd: libc::c_int, buf: *const libc::c_void, count: libc::size_t) -> libc::ssize_t {
-    if fd > 2 && count > 0 && RECORDING.load(Ordering::SeqCst) && !BUSY.load(Ordering::SeqCst) && die_here() {
-        if fd_path(fd).map(|p| tracked(&p)).unwrap_or(false) {
+    let mut count = count;
+    let mut path: Option<String> = None;
+    if fd > 2 && count > 0 && RECORDING.load(Ordering::SeqCst) && !BUSY.load(Ordering::SeqCst) {
+        path = fd_path(fd).filter(|p| tracked(p));
+    }
+    if path.is_some() {
+        let rate = FAULT_RATE.load(Ordering::SeqCst) as u64;
+        if rate > 0 {
+            let d = fault_draw();
+            if d % 1000 < rate {
+                if (d >> 20) % 4 == 0 {
+                    EINTRS.fetch_add(1, Ordering::SeqCst);
+                    *libc::__errno_location() = libc::EINTR;
+                    return -1;
+                } else if count > 1 {
+                    SHORT_WRITES.fetch_add(1, Ordering::SeqCst);
+                    count = 1 + ((d >> 24) as usize % (count - 1));
+                }
+            }
+        }
+        if die_here() {
             let n = KILL_EXTRA.load(Ordering::SeqCst).min(count);
             if n > 0 {
                 libc::syscall(libc::SYS_write, fd, buf, n);
@@ -96,12 +145,10 @@ pub unsafe extern "C" fn write(fd: libc::c_int, buf: *const libc::c_void, count:
         }
     }
     let r = libc::syscall(libc::SYS_write, fd, buf, count) as libc::ssize_t;
-    if r > 0 && fd > 2 && RECORDING.load(Ordering::SeqCst) && !BUSY.load(Ordering::SeqCst) {
-        if let Some(p) = fd_path(fd) {
-            if tracked(&p) {
-                let bytes = std::slice::from_raw_parts(buf as *const u8, r as usize).to_vec();
-                record(FsOp::Write(p, bytes));
-            }
+    if r > 0 {
+        if let Some(p) = path {
+            let bytes = std::slice::from_raw_parts(buf as *const u8, r as usize).to_vec();
+            record(FsOp::Write(p, bytes));
         }
     }
     r
